@@ -21,6 +21,8 @@ pub struct Unit {
     pub max_decisions: usize,
     /// wall-clock budget; when exceeded the rest of the unit's tree is dropped and the unit is reported as not exhaustive
     pub budget_s: f64,
+    /// timeout for nonlinear branch-feasibility queries (None = the run's solver timeout)
+    pub branch_nl_timeout_ms: Option<u64>,
 }
 pub trait CallWith<F> { fn call_with(&self, f: F); }
 macro_rules! impl_call_with { ($($t:ident $i:tt),*) => { impl<$($t: Clone,)* Func: Fn($($t),*)> CallWith<Func> for ($($t,)*) { fn call_with(&self, f: Func) { f($(self.$i.clone()),*) } } } }
@@ -41,7 +43,7 @@ macro_rules! unit {
         $crate::run::Unit { id: __id,
             sym: { Box::new(move || $crate::run::CallWith::call_with(&__t1, $f::<$crate::sym::Sym>)) },
             nat: { Box::new(move || $crate::run::CallWith::call_with(&__t2, $f::<f64>)) },
-            path_cap: 20000, panic_is_violation: false, max_decisions: 600, budget_s: 300.0 }
+            path_cap: 20000, panic_is_violation: false, max_decisions: 600, budget_s: 300.0, branch_nl_timeout_ms: None }
     }};
 }
 
@@ -210,10 +212,12 @@ fn worker(units: &[Unit], sched: &(Mutex<Sched>, Condvar), cfg: &Config) {
             let mut ctx = Ctx::new(cfg.timeout_ms);
             ctx.max_decisions = unit.max_decisions;
             ctx.solver.tag = unit.id.clone();
+            if let Some(t) = unit.branch_nl_timeout_ms { ctx.branch_nl_timeout_ms = t; }
             CTX.with(|c| *c.borrow_mut() = Some(ctx));
             cur = Some(ui);
         }
-        let (q0, s0) = sym::with(|c| { c.begin_path(prefix.clone()); ((c.solver.queries, c.solver.n_sat, c.solver.n_unsat, c.solver.n_unknown, c.solver.n_nl), c.solver.secs) });
+        let deadline = { let g = sched.0.lock().unwrap(); g.t0[ui].map(|t| t + std::time::Duration::from_secs_f64(unit.budget_s)) };
+        let (q0, s0) = sym::with(|c| { c.deadline = deadline; c.begin_path(prefix.clone()); ((c.solver.queries, c.solver.n_sat, c.solver.n_unsat, c.solver.n_unknown, c.solver.n_nl), c.solver.secs) });
         let end = run_body(&unit.sym);
         // a crate panic on a feasible path
         let mut panic_violation: Option<Violation> = None;
@@ -253,7 +257,7 @@ fn worker(units: &[Unit], sched: &(Mutex<Sched>, Condvar), cfg: &Config) {
             match &end {
                 PathEnd::Ok => {}
                 PathEnd::Panic(m) => { r.paths_panicked += 1; if r.panic_msgs.len() < 8 && !r.panic_msgs.contains(m) { r.panic_msgs.push(m.clone()); } }
-                PathEnd::Abort(a) => { if a.starts_with("assumption") { r.paths_pruned += 1 } else if r.aborted.len() < 8 { r.aborted.push(a.clone()) } }
+                PathEnd::Abort(a) => { if a.starts_with("assumption") { r.paths_pruned += 1 } else if a.starts_with("budget") { r.capped = true } else if r.aborted.len() < 8 { r.aborted.push(a.clone()) } }
             }
             r.queries += q1.0 - q0.0; r.n_sat += q1.1 - q0.1; r.n_unsat += q1.2 - q0.2; r.n_unknown += q1.3 - q0.3; r.n_nl += q1.4 - q0.4; r.solver_secs += s1 - s0;
             r.obligations += stats.obligations; r.discharged += stats.discharged; r.discharged_ident += stats.discharged_ident; r.real_equal_only += stats.real_equal_only;
